@@ -17,18 +17,27 @@
 (* that is what `from my_client.core.exceptions import ClientError;        *)
 (* except ClientError` catches.  `.response` must be the response that     *)
 (* carried the served status.                                              *)
+(*                                                                         *)
 (* The judge is DispatchCore!Failures - the operator that judged the       *)
-(* modelled outcome in the design check.  Total: every trace yields one    *)
-(* VERDICT line with every failing (clause, locus) (count + smallest       *)
-(* status), what the as-is model fails for the same events, the events on  *)
-(* which the real outcome differs from the model (drift, never a failure)  *)
-(* and the number of antecedents evaluated.                                *)
+(* modelled outcome in the design check.  The monitor is TOTAL: Step       *)
+(* consumes one event (judges the real outcome, judges the as-is model's   *)
+(* outcome for the same call, compares the two), Fin prints exactly one    *)
+(* VERDICT line per trace: every failing (clause, locus) with the number   *)
+(* of calls and the first status, what the as-is model fails for the same  *)
+(* calls, the calls on which the real outcome differs from the model       *)
+(* (drift, never a failure) and the antecedents evaluated.                 *)
 (***************************************************************************)
 EXTENDS DispatchCore, TLC, Json, IOUtils, SequencesExt
 
 Traces == ndJsonDeserialize(IOEnv.TRACE_FILE)
 
-VARIABLES tid, done
+VARIABLES tid,     \* which trace
+          l,       \* next event
+          fails,   \* [clause, locus] -> [n, first] : failures of the REAL outcomes so far
+          mfails,  \* the same for the as-is model's outcomes
+          drift,   \* [n, status, transport] : calls whose real outcome differs from the model's (first one kept)
+          ante     \* antecedent counters
+vars == <<tid, l, fails, mfails, drift, ante>>
 
 OwnModules(t) == {t.core \o ".exceptions", t.core \o ".exception_aliases"}
 OwnNames(t, e) == {nm \in Names : \E i \in 1..Len(e.mro) : e.mro[i] = nm /\ i <= Len(e.mods) /\ e.mods[i] \in OwnModules(t)}
@@ -39,39 +48,57 @@ Obs(t, e) ==
           hasResponse |-> (e.has_response /\ e.response_status = e.status), exc |-> e.exc]
     ELSE Return
 
-Init == tid \in 1..Len(Traces) /\ done = FALSE
+Empty == [k \in {} |-> [n |-> 0, first |-> 0]]
+Add(acc, FS, s) ==
+  [k \in (DOMAIN acc) \cup FS |->
+      IF k \in FS THEN (IF k \in DOMAIN acc THEN [n |-> acc[k].n + 1, first |-> acc[k].first] ELSE [n |-> 1, first |-> s])
+      ELSE acc[k]]
+AsSeq(acc) == SetToSeq({[clause |-> k.clause, locus |-> k.locus, n |-> acc[k].n, first |-> acc[k].first] : k \in DOMAIN acc})
 
-Judge ==
-  /\ ~done
-  /\ done' = TRUE
+B(b) == IF b THEN 1 ELSE 0
+
+Init ==
+  /\ tid \in 1..Len(Traces)
+  /\ l = 1
+  /\ fails = Empty /\ mfails = Empty
+  /\ drift = [n |-> 0, status |-> 0, transport |-> ""]
+  /\ ante = [calls |-> 0, non2xx |-> 0, raised |-> 0, c4xx |-> 0, c5xx |-> 0]
+
+Step ==
+  /\ l <= Len(Traces[tid].ev)
+  /\ LET t  == Traces[tid]
+         d  == ToSet(t.decl)
+         e  == t.ev[l]
+         o  == Obs(t, e)
+         m  == ModelOutcome("as_is", d, e.transport, e.status)
+     IN  /\ fails'  = Add(fails, Failures(d, e.transport, e.status, o), e.status)
+         /\ mfails' = Add(mfails, Failures(d, e.transport, e.status, m), e.status)
+         /\ drift'  = IF Project(o) = Project(m) THEN drift
+                      ELSE IF drift.n = 0 THEN [n |-> 1, status |-> e.status, transport |-> e.transport]
+                      ELSE [drift EXCEPT !.n = @ + 1]
+         /\ ante'   = [calls  |-> ante.calls + 1,
+                       non2xx |-> ante.non2xx + B(~Is2xx(e.status)),
+                       raised |-> ante.raised + B(~Is2xx(e.status) /\ e.kind = "raise"),
+                       c4xx   |-> ante.c4xx + B(Is4xx(e.status) /\ e.kind = "raise"),
+                       c5xx   |-> ante.c5xx + B(Is5xx(e.status) /\ e.kind = "raise")]
+  /\ l' = l + 1
   /\ UNCHANGED tid
-  /\ LET t   == Traces[tid]
-         d   == ToSet(t.decl)
-         n   == Len(t.ev)
-         E(i) == t.ev[i]
-         FA  == [i \in 1..n |-> Failures(d, E(i).transport, E(i).status, Obs(t, E(i)))]
-         MO  == [i \in 1..n |-> ModelOutcome("as_is", d, E(i).transport, E(i).status)]
-         MF  == [i \in 1..n |-> Failures(d, E(i).transport, E(i).status, MO[i])]
-         Agg(FS, f) == LET idx == {i \in 1..n : f \in FS[i]}
-                       IN  [clause |-> f.clause, locus |-> f.locus, n |-> Cardinality(idx),
-                            first |-> Min({E(i).status : i \in idx})]
-         AggAll(FS) == LET all == UNION {FS[i] : i \in 1..n} IN SetToSeq({Agg(FS, f) : f \in all})
-         drift == {i \in 1..n : Project(Obs(t, E(i))) # Project(MO[i])}
-         cnt(P(_)) == Cardinality({i \in 1..n : P(E(i))})
+
+Fin ==
+  /\ l = Len(Traces[tid].ev) + 1
+  /\ l' = l + 1
+  /\ UNCHANGED <<tid, fails, mfails, drift, ante>>
+  /\ LET t == Traces[tid]
+         d == ToSet(t.decl)
      IN PrintT("VERDICT " \o ToJson([
             id         |-> t.id,
-            wellformed |-> WellFormed(d) /\ \A i \in 1..n : E(i).status \in 100..599 /\ E(i).transport \in {"bundled", "pass"},
+            wellformed |-> WellFormed(d) /\ \A i \in 1..Len(t.ev) : t.ev[i].status \in 100..599 /\ t.ev[i].transport \in {"bundled", "pass"},
             importable_model |-> Importable("as_is", d),
-            fails       |-> AggAll(FA),
-            model_fails |-> AggAll(MF),
-            ndrift      |-> Cardinality(drift),
-            drift_first |-> IF drift = {} THEN [status |-> 0, transport |-> ""]
-                            ELSE [status |-> E(Min(drift)).status, transport |-> E(Min(drift)).transport],
-            ante |-> [calls  |-> n,
-                      non2xx |-> cnt(LAMBDA e : ~Is2xx(e.status)),
-                      raised |-> cnt(LAMBDA e : ~Is2xx(e.status) /\ e.kind = "raise"),
-                      c4xx   |-> cnt(LAMBDA e : Is4xx(e.status) /\ e.kind = "raise"),
-                      c5xx   |-> cnt(LAMBDA e : Is5xx(e.status) /\ e.kind = "raise")]]))
+            fails       |-> AsSeq(fails),
+            model_fails |-> AsSeq(mfails),
+            ndrift      |-> drift.n,
+            drift_first |-> [status |-> drift.status, transport |-> drift.transport],
+            ante        |-> ante]))
 
-Spec == Init /\ [][Judge]_<<tid, done>>
+Spec == Init /\ [][Step \/ Fin]_vars
 =============================================================================
